@@ -17,6 +17,7 @@ RULE = ("real Regression objects built with default construction arguments on ge
         "(c) every optimize_coefficients variant (3 options, standard and spatially adaptive): coefficients sum to one. distinct = "
         "digest(generator, configuration, data digest); non-trivial = anisotropic / non-uniform grid or training with lmax>lmin")
 RULE += (" " + 'Inputs include data quantised so that scaled coordinates sit exactly on (or within rounding of) grid lines; 40% of the trainings happen on an object that was trained before with another hold-out share / level range / lambda.')
+RULE += (" A few cases use thousands of samples (design matrices with millions of entries) and level ranges up to 5.")
 REQUIRED = ["default_construction", "A_matrix_uniform", "C_matrix_uniform", "C_matrix_psd", "A_matrix_dimwise", "C_matrix_dimwise",
             "normal_equations_unregularised", "normal_equations_identity", "normal_equations_gradient", "normal_equations_adaptive",
             "opticom_sum_one", "opticom_sum_one_adaptive"]
@@ -34,9 +35,11 @@ def cases(tier, seed):
     return out
 
 
-def gen_regression_data(rng, d):
+def gen_regression_data(rng, d, large=False):
     npr = np.random.RandomState(rng.randrange(2 ** 31))
     m = rng.choice([10, 25, 60, 120, 200])
+    if large:
+        m = rng.choice([2500, 4000, 6001])     # thousands of samples: (samples x grid points x d) in the millions
     X = npr.uniform(-2, 3, size=(m, d)) * npr.uniform(0.5, 4, size=(1, d))
     if rng.random() < 0.3:
         # quantised inputs: after the default scaling to [0.05, 0.95] many coordinates sit exactly on grid lines k/2^l
@@ -67,7 +70,10 @@ def run_matrix(case, res):
     import sparseSpACE.Grid as G
     rng = random.Random(case["seed"])
     d = rng.choice([1, 2, 2, 3])
-    X, y, kind = gen_regression_data(rng, d)
+    large = rng.random() < 0.04
+    X, y, kind = gen_regression_data(rng, d, large)
+    if large:
+        res.count("large_data_set")
     lam = rng.choice([0.0, 1e-4, 1e-2, 1.0])
     matrix = rng.choice(["C", "I"])
     cfg = {"d": d, "m": len(X), "targets": kind, "lambda": lam, "matrix": matrix}
@@ -175,13 +181,18 @@ def check_opticom(res, reg, combi, adaptive, cfg):
 def run_train(case, res, adaptive=False):
     rng = random.Random(case["seed"])
     d = rng.choice([1, 2, 2, 3]) if not adaptive else rng.choice([1, 2, 2])
-    X, y, kind = gen_regression_data(rng, d)
+    large = (not adaptive) and d == 2 and rng.random() < 0.04
+    X, y, kind = gen_regression_data(rng, d, large)
+    if large:
+        res.count("large_data_set")
     if len(X) < 25:
         X, y, kind = gen_regression_data(random.Random(case["seed"] + 1), d)
     lam = rng.choice([0.0, 1e-4, 1e-2, 1.0])
     matrix = rng.choice(["C", "I"])
     lmin = rng.choice([1, 1, 2])
     lmax = lmin + rng.choice([0, 1, 2]) if d < 3 else lmin + rng.choice([0, 1])
+    if large:
+        lmin, lmax = 1, rng.choice([4, 5])
     cfg = {"d": d, "m": len(X), "targets": kind, "lambda": lam, "matrix": matrix, "lmin": lmin, "lmax": lmax, "adaptive": adaptive}
     res.sample = {"config": cfg}
     try:
